@@ -649,7 +649,7 @@ class Scanner:
                     return Sub(base.k, base.lo)
                 nlo = base.lo + lo
                 nhi = base.hi if hi is None else (base.lo + hi if base.hi is None else min(base.hi, base.lo + hi))
-                return Toks(base.k, nlo, nhi, alias=False)
+                return Toks(base.k, nlo, nhi, alias=False, raw=base.raw)
             iav = self.ev(sl, g)
             if isinstance(iav, Const) and isinstance(iav.v, int) and not isinstance(iav.v, bool):
                 i = iav.v
@@ -660,14 +660,14 @@ class Scanner:
                         self.emit(g, '.raise .IndexError')
                         return Unk()
                     self.emit(g, f'.need{K} {idx}')
-                    return Elem(base.k, idx)
+                    return Elem(base.k, idx) if base.raw else Unk()
                 if base.hi is None:
                     self.emit(g, f'.need{K} {base.lo + (-i) - 1}')
-                    return Elem(base.k, None)
+                    return Elem(base.k, None) if base.raw else Unk()
                 self.unknown(node, g)
                 return Unk()
             if isinstance(iav, LoopIdx) and iav.k == base.k and base.lo == 0 and base.hi is None:
-                return LoopEl(base.k, iav.lo, iav.hi, iav.lid)
+                return LoopEl(base.k, iav.lo, iav.hi, iav.lid) if base.raw else Unk()
             self.unknown(node, g)
             return Unk(tracked=True)
         if isinstance(base, Sub):
@@ -731,6 +731,8 @@ class Scanner:
         iav = self.ev(sl, g)
         if isinstance(base, TokVal):
             return Unk()
+        if isinstance(base, Unk) and base.tracked:
+            self.unknown(node, g)       # an index into a list derived from the tokens that the reader lost track of
         return Unk(tracked=base.tracked)
 
     def ev_Slice(self, node, g):
@@ -1025,7 +1027,7 @@ class Scanner:
         if len(node.args) == 1 and not node.keywords:
             av = self.ev(node.args[0], g)
             if isinstance(av, Toks):
-                return Toks(av.k, av.lo, av.hi, alias=False)
+                return Toks(av.k, av.lo, av.hi, alias=False, raw=av.raw)
             if isinstance(av, (Sub,)):
                 return av
             if isinstance(av, Const):
@@ -1048,6 +1050,8 @@ class Scanner:
                     self.nloop += 1
                     loop = LoopEl('s', av.lo, getattr(av, 'hi', None), self.nloop)
                     self.convert_loop(node.args[0].id, loop, False, node, g)
+                if isinstance(av, Toks):
+                    return Toks(av.k, av.lo, av.hi, alias=False, raw=False)
                 return Unk()
             if av.tracked:
                 self.unknown(node, g)
@@ -1208,7 +1212,7 @@ class Scanner:
         if isinstance(recv, Const):
             if isinstance(recv.v, str) and name == 'join' and len(args) == 1:
                 a = args[0]
-                if isinstance(a, Toks) and a.k == 's' and a.hi is None and recv.v == '':
+                if isinstance(a, Toks) and a.raw and a.k == 's' and a.hi is None and recv.v == '':
                     return Join(a.lo)
                 return Unk()
             if all(isinstance(a, Const) for a in args) and all(isinstance(a, Const) for a in kw.values()):
@@ -1272,7 +1276,7 @@ class Scanner:
             self.unknown(node, g)
             return Unk()
         if name in ('copy',):
-            return Toks(recv.k, recv.lo, recv.hi, alias=False)
+            return Toks(recv.k, recv.lo, recv.hi, alias=False, raw=recv.raw)
         if name in ('index', 'count', '__len__'):
             return Unk()
         if name in ('append', 'extend', 'insert', 'remove', 'clear', 'sort', 'reverse') and recv.alias:
@@ -1449,6 +1453,8 @@ class Scanner:
                 for i, t in enumerate(tgt.elts):
                     if isinstance(t, ast.Starred):
                         self.bind(t.value, Toks(av.k, av.lo + i, None if i == n - 1 else None, alias=False) if i == n - 1 else Sub(av.k, av.lo), g, node)
+                    elif not av.raw:
+                        self.bind(t, Unk(), g, node)
                     elif star is None or i < star:
                         self.bind(t, Elem(av.k, av.lo + i), g, node)
                     else:
@@ -1524,7 +1530,7 @@ class Scanner:
                 pass
             return ('other', Unk())
         if isinstance(av, Toks):
-            return ('toks', av.k, av.lo, av.hi)
+            return ('toks', av.k, av.lo, av.hi) if av.raw else ('other', Unk())
         if isinstance(av, Sub):
             return ('toks', av.k, av.lo, None) if av.k != 's' else ('sub', av.k, av.lo)
         if isinstance(av, Tup) and len(av.items) <= MAX_UNROLL:
@@ -1654,14 +1660,35 @@ class Scanner:
             self.loop(gen.target, gen.iter, None, None, gg, comp=body)
         saved = dict(self.fr.env)
         level(0, g)
-        tr = False
-        for gen in gens:
+        # what the comprehension yields: a list as long as the token slice it runs over (so that indexing it is still read)
+        res = Unk()
+        if len(gens) == 1 and not isinstance(node, ast.DictComp):
             self.muted += 1
-            sp = self.iteration(gen.iter, g)
+            sp = self.iteration(gens[0].iter, g)
             self.muted -= 1
-            tr = tr or sp[0] in ('toks', 'enum', 'idx', 'sub', 'zip') and sp[1] == 's'
+            if sp[0] == 'toks':
+                if gens[0].ifs or isinstance(node, ast.SetComp):
+                    res = Sub(sp[1], sp[2])
+                else:
+                    ident = isinstance(node.elt, ast.Name) and isinstance(gens[0].target, ast.Name) and node.elt.id == gens[0].target.id
+                    if isinstance(node, ast.ListComp):
+                        res = Toks(sp[1], sp[2], sp[3], alias=False, raw=ident)
+                    else:
+                        res = Sub(sp[1], sp[2]) if ident else Unk()
+            elif sp[0] in ('enum', 'idx', 'sub', 'zip'):
+                res = Unk(tracked=True)
+            elif sp[0] == 'other' and self.hot(sp[1]) and not isinstance(sp[1], (Elem, LoopEl, TokVal, Join)):
+                res = Unk(tracked=True)
+        elif len(gens) > 1:
+            self.muted += 1
+            tr = False
+            for gen in gens:
+                sp = self.iteration(gen.iter, g)
+                tr = tr or sp[0] in ('toks', 'enum', 'idx', 'sub', 'zip') or (sp[0] == 'other' and self.hot(sp[1]))
+            self.muted -= 1
+            res = Unk(tracked=tr)
         self.fr.env = saved
-        return Sub('s', 0) if False else Unk(tracked=False)
+        return res
 
     def ev_ListComp(self, node, g):
         return self.comprehension(node, g)
